@@ -72,6 +72,8 @@ def str_bytes(I, v):
             v = deref(I, v)
         elif isinstance(v, Adt) and v.path.endswith("borrow::Cow"):
             v = v.fields[0]
+        elif type(v).__name__ == "UninitBox" and v.init:
+            v = v.cell[0]
         else:
             break
     if isinstance(v, StrBuf):
@@ -133,13 +135,12 @@ def render_value(I, kind, v, typ, opts, depth):
     from .stdmodel import StrBuf, deref, tmp_ref
 
     val = v
-    if isinstance(val, Ref):
-        val = deref(I, val)
-    t = typ.lstrip("&").replace("mut ", "").strip()
-    while t.startswith("&"):
-        t = t[1:].replace("mut ", "").strip()
+    for _ in range(5):
         if isinstance(val, Ref):
             val = deref(I, val)
+    t = typ
+    while t.startswith("&"):
+        t = re.sub(r"^&(?:'\w+ )?(?:mut )?", "", t).strip()
     prec = opts.get("precision")
     flags = opts.get("flags", 0)
     if t in INTS and isinstance(val, int):
@@ -182,7 +183,7 @@ def render_value(I, kind, v, typ, opts, depth):
         o["default_align"] = 1
         return pad(s.encode(), o)
     sb = str_bytes(I, val)
-    if sb is not None and (t in ("str", "std::string::String", "alloc::string::String") or t.startswith("std::borrow::Cow<") or t.startswith("alloc::borrow::Cow<")):
+    if sb is not None and (t in ("str", "std::string::String", "alloc::string::String", "std::boxed::Box<str>", "alloc::boxed::Box<str>") or t.startswith("std::borrow::Cow<") or t.startswith("alloc::borrow::Cow<")):
         if kind == "display":
             if prec is not None:
                 sb = list(bytes(sb).decode("utf-8", "replace")[:prec].encode())
@@ -282,6 +283,36 @@ def sink_write(I, out, data, depth):
     return False
 
 
+def crate_sink(I, out, data, depth, prefer=None):
+    """`out` designates a crate type that implements fmt::Write: route the bytes through its own
+    `write_str` (or `write_char` when asked and present).  Returns the call's result or None."""
+    from .stdmodel import deref
+
+    tgt = out
+    for _ in range(3):
+        if isinstance(tgt, Ref):
+            tgt = deref(I, tgt)
+    if not isinstance(tgt, Adt):
+        return None
+    idx = getattr(I.P, "_fmtwrite_index", None)
+    if idx is None:
+        idx = {}
+        for fid_ in I.P.fns:
+            m_ = re.match(r"^<([A-Za-z0-9_:]+)(<.*>)? as (?:std|core)::fmt::Write>::(write_str|write_char)$", fid_)
+            if m_:
+                idx[(m_.group(1), m_.group(3))] = fid_
+        I.P._fmtwrite_index = idx
+    ref = out if isinstance(out, Ref) else None
+    if ref is None:
+        return None
+    if prefer == "write_char" and (tgt.path, "write_char") in idx and len(data.decode("utf-8", "replace")) == 1:
+        return I.run(I.P.fns[idx[(tgt.path, "write_char")]], [ref, ord(data.decode("utf-8", "surrogatepass"))], depth + 1)
+    fid_ = idx.get((tgt.path, "write_str"))
+    if fid_ is None:
+        return None
+    return I.run(I.P.fns[fid_], [ref, Slice(list(data), 0, len(data))], depth + 1)
+
+
 def call(I, fr, name, fname, k, args, depth):
     """Returns (handled, value)."""
     from .stdmodel import StrBuf, as_slice, deref, err, ok
@@ -342,23 +373,26 @@ def call(I, fr, name, fname, k, args, depth):
         data = render(I, args[1], depth)
         if sink_write(I, args[0], data, depth):
             return True, OK()
-        # a crate type implementing fmt::Write: route through its write_str
-        tgt = deref(I, args[0])
-        if isinstance(tgt, Adt):
-            for pref in ("std", "core"):
-                for tn in (tgt.path, tgt.path + "<'_>", tgt.path + "<'a>"):
-                    body = I.P.fns.get(I.P.norm("<%s as %s::fmt::Write>::write_str" % (tn, pref), False))
-                    if body is not None:
-                        return True, I.run(body, [args[0], Slice(list(data), 0, len(data))], depth + 1)
-        raise Unsupported("write_fmt into %r" % (tgt,))
+        r_ = crate_sink(I, args[0], data, depth)
+        if r_ is not None:
+            return True, r_
+        raise Unsupported("write_fmt into %r" % (deref(I, args[0]),))
     if name.endswith("fmt::Write::write_str") or name.endswith("fmt::Write>::write_str") or name.endswith("string::String as std::fmt::Write>::write_str"):
         s = as_slice(I, args[1])
-        if sink_write(I, args[0], bytes(s.heap[s.start:s.start + s.len]), depth):
+        data = bytes(s.heap[s.start:s.start + s.len])
+        if sink_write(I, args[0], data, depth):
             return True, OK()
+        r_ = crate_sink(I, args[0], data, depth)
+        if r_ is not None:
+            return True, r_
         return False, None
     if name.endswith("fmt::Write::write_char") or name.endswith("fmt::Write>::write_char"):
-        if sink_write(I, args[0], chr(args[1]).encode("utf-8", "surrogatepass"), depth):
+        data = chr(args[1]).encode("utf-8", "surrogatepass")
+        if sink_write(I, args[0], data, depth):
             return True, OK()
+        r_ = crate_sink(I, args[0], data, depth, prefer="write_char")
+        if r_ is not None:
+            return True, r_
         return False, None
     if name.endswith("io::Write::write_all") or name.endswith("io::Write>::write_all"):
         s = as_slice(I, args[1])
